@@ -151,3 +151,205 @@ def _commit_step(P, ks, a, op, op2, ghost, cut, cut2):
     pinned = W.sticky()
     if pinned:
         fail('a node is left pinned (sticky) after the transactions', ctx)
+
+
+# ---------------------------------------------------------------------------
+# C05: cache eviction
+
+class Unorderable:
+    """a key of a type the family cannot use (default comparison)"""
+
+
+EV_GROUPS = {'read': 8, 'write': 3, 'del': 4, 'range': 5, 'bad': 8}
+
+
+def evict_step(P, ks, a):
+    kind = P['kind']
+    is_set = kind in ('TreeSet', 'Set')
+    grp = P['group']
+    if grp in ('write', 'del'):
+        nops = NOPS[('set' if is_set else 'map', grp)]
+    elif grp == 'read':
+        nops = 6 if is_set else 8
+    else:
+        nops = EV_GROUPS[grp]
+    op = common.choose(a['op'], nops)
+    ghost = common.flag(a['ghost'])
+    with common.untraced():
+        _evict_step(P, ks, a, op, ghost)
+
+
+def _evict_step(P, ks, a, op, ghost):
+    kind = P['kind']
+    is_set = kind in ('TreeSet', 'Set')
+    cl = h_step.classes(P)
+    grp = P['group']
+    keys_mod.reset()
+    kk = [K(k, i) for i, k in enumerate(ks)]
+    x = K(a['x'])
+    y = K(a['y']) if 'y' in a else x
+    ctx = {'harness': 'evict_step', 'impl': P['impl'], 'kind': kind, 'group': grp, 'op': op, 'ghost': ghost}
+    st, W, t, oid, m = stored_tree(P, ks, kk)
+    if ghost:
+        W.minimize()
+    m0 = m.copy()
+    # the e-th key comparison of the operation sweeps the whole cache
+    keys_mod.reset_counter()
+    keys_mod.CTL['hooksym'] = a['e']
+    keys_mod.CTL['hookfn'] = W.minimize
+    ok = True
+    ge = we = None
+    try:
+        if grp in ('write', 'del'):
+            got, ge, want, we, loose = do_op(t, m, P, grp, op, x, x, is_set)
+            ok = ge == we and (ge is not None or (bool(got) == bool(want) if loose else (got is want or got == want)))
+        elif grp == 'read':
+            if is_set:
+                got, ge, want, we, loose = set_op(t, m, 'read', op, x, x, True)
+            else:
+                got, ge, want, we, loose = map_op(t, m, 'read', op, x, x, VNEW, kind == 'BTree')
+            ok = ge == we and (ge is not None or (bool(got) == bool(want) if loose else (got is want or got == want)))
+        elif grp == 'range':
+            mk = m.keys()
+            with keys_mod.live():
+                if op == 0:
+                    got = list(t.keys(x, y))
+                    ok = same_keys(got, [k for k in mk if not klt(k, x) and not klt(y, k)])
+                elif op == 1:
+                    got = list(t.keys(min=x, excludemin=True))
+                    ok = same_keys(got, [k for k in mk if klt(x, k)])
+                elif op == 2:
+                    got = list(t.keys(max=x, excludemax=True))
+                    ok = same_keys(got, [k for k in mk if klt(k, x)])
+                elif op == 3:
+                    try:
+                        got = t.minKey(x)
+                    except ValueError:
+                        got = None
+                    c = [k for k in mk if not klt(k, x)]
+                    ok = (got is None and not c) or (bool(c) and got is not None and keq(got, c[0]))
+                else:
+                    try:
+                        got = t.maxKey(x)
+                    except ValueError:
+                        got = None
+                    c = [k for k in mk if not klt(x, k)]
+                    ok = (got is None and not c) or (bool(c) and got is not None and keq(got, c[-1]))
+        else:
+            # operations that FAIL: a key the family cannot use; results are C09's subject,
+            # here only: contents unchanged, nothing stays pinned
+            bad = Unorderable()
+            with keys_mod.live():
+                try:
+                    if op == 0:
+                        (t.has_key(bad) if is_set else t.get(bad))
+                    elif op == 1:
+                        bad in t
+                    elif op == 2:
+                        t.minKey(bad)
+                    elif op == 3:
+                        t.maxKey(bad)
+                    elif op == 4:
+                        list(t.keys(bad, x))
+                    elif op == 5:
+                        list(t.keys(x, bad))
+                    elif op == 6:
+                        (t.add(bad) if is_set else t.__setitem__(bad, 1))
+                    else:
+                        (t.remove(bad) if is_set else t.__delitem__(bad))
+                except (TypeError, KeyError, ValueError):
+                    pass
+    except Exception as e:          # noqa
+        fail('the operation raised %s with a cache sweep inside it' % type(e).__name__, ctx)
+        return
+    ctx['e'] = keys_mod.CTL['hooked_at']
+    keys_mod.reset_counter()
+    # pins first: any later access to a node clears a stale sticky flag
+    pinned = [o for o in W.nodes() if o._p_state == STICKY]
+    if pinned:
+        fail('a node is left pinned against eviction (sticky) after the operation returned', dict(ctx, pinned=type(pinned[0]).__name__))
+    if not ok:
+        fail('result differs from the un-cached twin (%s vs %s)' % (ge, we), ctx, ge, we)
+    check_view(t, m, P, cl, is_set, 'contents after the operation', ctx)
+    W.minimize()
+    check_view(t, m, P, cl, is_set, 'contents after evicting everything', ctx)
+    # what is stored is what the writer sees
+    try:
+        W.commit()
+    except Exception as e:          # noqa
+        fail('commit raised %s' % type(e).__name__, ctx)
+        return
+    R = Jar(st)
+    check_view(R.get(oid, cl[kind]), m, P, cl, is_set, 'fresh reader after commit', ctx)
+
+
+# ---------------------------------------------------------------------------
+# C05, native-key families: calls that fail in the key/value CONVERSION must
+# release their pin as well.  Keys are concrete here (the compiled code unboxes
+# them); the call kind and the unusable argument are solver-chosen selectors.
+
+BAD_PALETTE = ['a', 2 ** 40, -2 ** 70, None, 1.5, (1,), b'x']
+_NCL = {}
+
+
+def evict_native(P, ks, a):
+    op = common.choose(a['op'], 10)
+    b = common.choose(a['b'], len(BAD_PALETTE))
+    ghost = common.flag(a['ghost'])
+    with common.untraced():
+        fam, kind, n = P['family'], P['kind'], P['n']
+        if (fam, 'c') not in _NCL:
+            cl_ = shapes.classes(fam, 'c')
+            shapes.set_sizes(cl_, 2, 2)
+            _NCL[(fam, 'c')] = cl_
+        cl = _NCL[(fam, 'c')]
+        is_set = kind in ('Set', 'TreeSet')
+        keys = [10 * i for i in range(n)]
+        t = cl[kind](keys) if is_set else cl[kind]([(k, k + 1) for k in keys])
+        st = Storage()
+        W = Jar(st)
+        oid = W.add(t)
+        if kind in ('BTree', 'TreeSet') and n > 2:
+            add_all(W, t)
+        W.commit()
+        if ghost:
+            W.minimize()
+        bad = BAD_PALETTE[b]
+        ctx = {'harness': 'evict_native', 'family': fam, 'kind': kind, 'op': op, 'bad': repr(bad), 'ghost': ghost}
+        exc = None
+        try:
+            if op == 0:
+                (t.has_key(bad) if is_set else t.get(bad))
+            elif op == 1:
+                bad in t
+            elif op == 2:
+                t.minKey(bad)
+            elif op == 3:
+                t.maxKey(bad)
+            elif op == 4:
+                list(t.keys(bad, 5))
+            elif op == 5:
+                list(t.keys(5, bad))
+            elif op == 6:
+                (t.add(bad) if is_set else t.__setitem__(bad, 1))
+            elif op == 7:
+                (t.remove(bad) if is_set else t.__delitem__(bad))
+            elif op == 8:
+                (t.update([bad]) if is_set else t.__setitem__(5, bad))
+            else:
+                (t.discard(bad) if is_set else t.pop(bad, None))
+        except (TypeError, KeyError, ValueError, OverflowError) as e:
+            exc = type(e).__name__
+        except Exception as e:          # noqa
+            fail('a call with an unusable argument raised %s' % type(e).__name__, ctx)
+        ctx['exc'] = exc
+        pinned = [o for o in W.nodes() if o._p_state == STICKY]
+        if pinned:
+            fail('a node is left pinned against eviction (sticky) after a failing call returned', dict(ctx, pinned=type(pinned[0]).__name__))
+        got = list(t.keys()) if is_set else list(t.items())
+        want = keys if is_set else [(k, k + 1) for k in keys]
+        if got != want and not (op == 8 and not is_set and exc is None):
+            fail('a failing call changed the contents', ctx, got, want)
+        W.minimize()
+        if any(o._p_state != GHOST for o in W.nodes() if not o._p_changed):
+            fail('a node cannot be evicted after the failing call', ctx)
